@@ -216,6 +216,9 @@ type memConnOpts struct {
 	// perMessageGoroutine: dispatch every received message in its own goroutine
 	// (config.ProcessReceivedMessage), so copies of one request are processed concurrently
 	perMessageGoroutine bool
+	// afterHandler, when set, runs on the receive path after the dispatch handler returned and before the
+	// library's own clean-up of the received message (through config.ProcessReceivedMessage)
+	afterHandler func(r *pool.Message)
 }
 
 func newMemConn(o memConnOpts) *memConn {
@@ -270,6 +273,14 @@ func newMemConn(o memConnOpts) *memConn {
 	if o.perMessageGoroutine {
 		cfg.ProcessReceivedMessage = func(req *pool.Message, cc *client.Conn, handler config.HandlerFunc[*client.Conn]) {
 			go cc.ProcessReceivedMessageWithHandler(req, handler)
+		}
+	}
+	if o.afterHandler != nil && !o.perMessageGoroutine {
+		cfg.ProcessReceivedMessage = func(req *pool.Message, cc *client.Conn, handler config.HandlerFunc[*client.Conn]) {
+			cc.ProcessReceivedMessageWithHandler(req, func(w *responsewriter.ResponseWriter[*client.Conn], r *pool.Message) {
+				handler(w, r)
+				o.afterHandler(r)
+			})
 		}
 	}
 	mc.cc = client.NewConnWithOpts(mc.s, &cfg, o.opts...)
